@@ -4,6 +4,7 @@ set -e
 id=$1; base=${2:-aa7b23a}
 wt=/tmp/merge/$id
 rm -rf $wt; git -C /verif worktree prune
+if [ -n "$SKIPBUILD" ]; then :; else
 git -C /verif branch -D slice-$id 2>/dev/null || true
 git -C /verif worktree add -q -b slice-$id $wt $base
 rsync -a --exclude .git --exclude /bin --exclude /replays --exclude /work --exclude /lean/.lake --exclude '/evidence/' --exclude '/seeded/' --exclude '*.tmp' /tmp/agents/$id/verif/ $wt/
@@ -12,5 +13,14 @@ cp /tmp/agents/$id/verif/evidence/$id.json $wt/evidence/ 2>/dev/null || true
 git -C $wt add -A
 git -C $wt commit -qm "slice $id (agent work on base $base)"
 git -C /verif worktree remove --force $wt
+fi
 git -C /verif merge --no-commit slice-$id || true
 git -C /verif status --short | grep -E '^(UU|AA|DU|UD)' || echo "no conflicts"
+cd /verif
+for f in $(git diff --name-only --diff-filter=U | grep '^lean/OidcModel/Generated/'); do git checkout --ours $f; git add $f; done
+git checkout --ours MANIFEST.json checklib/props.py 2>/dev/null || true
+tools/manifest_add.py /tmp/agents/$id/verif/MANIFEST.json $id
+tools/props_add.py /tmp/agents/$id/verif/checklib/props.py $id
+for f in lean/Driver/Main.lean lean/Driver/MainMon.lean lean/OidcModel.lean known-findings.jsonl; do tools/union_resolve.py $f; done
+git add MANIFEST.json checklib lean/Driver/Main.lean lean/Driver/MainMon.lean lean/OidcModel.lean known-findings.jsonl
+echo "--- remaining:"; git diff --name-only --diff-filter=U
